@@ -211,7 +211,7 @@ Section Main.
       init_len (op_value op) = Ok (sp_len sp) ->
       run_ctor ext op c init_len G pos kw = (G', Ok cm) ->
       exists ρ0 d r,
-        bind_args c pos kw = Ok ρ0 /\ cdb cm = Some r /\ G' = mkG (c_bits c) (sp_len sp) /\
+        bind_args c pos kw = Ok ρ0 /\ cdb cm = Some r /\ G' = G /\
         (* d: the values handed to build_cdb.  When they are integers within their fields' widths: *)
         (all_ints d = true -> valid_dict (sp_len sp) (c_bits c) (ints d) = true ->
            length r = sp_len sp /\ bytes_ok r /\
